@@ -20,7 +20,7 @@ SPEC = {
         ("_create_start_nodes(one first() per spatial-query tuple, arguments unchanged, every candidate filed once)", 'start_nodes', r'^start:'),
         ("_build_node_path(final entry = most probable live entry; loop invariant over a column of arbitrary size)", 'final_choice', r'.')],
     'bounded': [
-        ('all-walks-optimum', suites.case_C01, 1500, 25000, RULE + '; ' + 'non-trivial = at least 2 observations explainable and at least 2 edges; emitting-only, no width pruning, avoid_goingback off', 'graphs <= 5 nodes, traces <= 4 observations (enumeration is exponential)')],
+        ('all-walks-optimum', suites.case_C01, 1500, 200000, RULE + '; ' + 'non-trivial = at least 2 observations explainable and at least 2 edges; emitting-only, no width pruning, avoid_goingback off', 'graphs <= 5 nodes, traces <= 4 observations (enumeration is exponential)')],
 }
 
 
